@@ -41,7 +41,7 @@ CHECKS = {
     "C18": dict(
         text="The strongest postcondition itype of infer_type/infer_return_type is derived mechanically from every path of the real source; the "
              "property is proved as a per-kind lemma itype(n) in {None, otype(n)} against the OData return-type table, plus typecheck's "
-             "raises-iff contract and the accept/reject corollaries.",
+             "raises-iff contract and the accept/reject corollaries. After a solver timeout a closed-evaluation search over small trees of the kind looks for a concrete counterexample (model finder, not a proof).",
         note=COMMON_NOTE + "OData return-type table written from the specification; well-typedness restricted to what the lemma needs (arity, agreeing concat arguments).",
         technique="mechanically derived function summary + per-constructor lemma discharged by z3",
         design="8 C18"),
@@ -76,7 +76,7 @@ CHECKS.update({
         design="8 C10"),
     "C11": dict(
         text="Contract proof of ODataParser._function_call against an independent copy of the OData function table: returns Call iff name and count match, "
-             "otherwise the typed exception with exact payload fields (one path per table row); call productions keep argument order.",
+             "otherwise the typed exception with exact payload fields (one path per table row); call productions keep argument order. A bounded family (labelled, not counted) calls every table function and 9 other names with 0..4 positional / 1..4 named arguments through the real parser.",
         note=COMMON_NOTE + "ARITY_TABLE (33 rows) written from the OData specification.",
         technique="contracts + VC generation over the real source (pyvc) discharged by z3",
         design="8 C11"),
@@ -122,7 +122,7 @@ CHECKS.update({
         text="Contract proof per backend (3 SQL dialects, roundtrip, Django Q, SQLAlchemy ORM and Core) x node kind, including kinds without a "
              "handler: the MRO-resolved visit returns a complete translation (text: well-formed, no placeholder; ORM: a constructor term "
              "containing every child's translation, no None placeholder) or raises a library exception (Core: its documented "
-             "NotImplementedError); every attribute/index/arity/raise path of repository code is a safety obligation. Calls per function and arity.",
+             "NotImplementedError); every attribute/index/arity/raise path of repository code is a safety obligation. Calls per function and arity. post.lookup: SQLAlchemy identifiers are resolved by a keyed lookup in the column collection (recorded finding for the ORM backend, which uses getattr on the model class).",
         note="Calls into Django/SQLAlchemy are uninterpreted total constructors: exceptions raised inside them are out of reach; Django and "
              "SQLAlchemy-ORM visit_CollectionLambda are not under contract (model-meta API in loops); attribute-but-not-field names on SQLAlchemy "
              "models cannot be distinguished by the assumed getattr contract.",
@@ -153,7 +153,7 @@ CHECKS.update({
              "after every '(' , before every ')', around every ',' and the lambda ':', both BWS alternatives, no action reads a BWS slot; "
              "(c) token actions normalise the spelling or store it raw; (d) for raw keyword-bearing kinds (Boolean, DateTime, Float, "
              "Duration) py_val and the handler of each of the 7 backends read .val only under lower()/upper(), through py_val, or as a token of "
-             "a case-insensitive target language (2-safety by dependence analysis on every path).",
+             "a case-insensitive target language (2-safety by dependence analysis on every path). Tokens whose rule spells keyword letters (geography'...') carry C06's positional-slice contract of their action as rel.case.",
         note="Lifting (a)-(d) to whole filters needs the SLY/re contracts assumed in C05/C06. Case-insensitivity of float() and dateutil "
              "isoparse() is assumed (bounded family, not counted). GUID hex digits, string contents and field names are content, not keywords.",
         technique="regular-language inclusion on the real rule patterns; finite grammar check; contracts on token actions and backend handlers (pyvc)",
